@@ -2,6 +2,8 @@ package main
 
 import (
 	"math/rand/v2"
+	"reflect"
+	"strconv"
 
 	"gitee.com/xuesongtao/protoc-go-valid/valid"
 )
@@ -80,6 +82,39 @@ func init() {
 					return flatMapCase(r, profGfn.o)
 				}
 				return flatUrlCase(r, profGfn.o)
+			}
+			return walkerCase(r, profGfn)
+		},
+	})
+	// walk-gfn-seq: one sequential history in which the global table keeps changing BETWEEN validations (never during
+	// one): a name is registered again — a custom name, a built-in, a walker-implemented name — and the types seen
+	// before are validated again.  A call resolves a name in the table as it is when the call runs.
+	regN := 0
+	register(&Stream{
+		Name: "walk-gfn-seq",
+		Rule: "a sequential history of Struct / Var / Map / Url calls over the named types and synthesised ones in which, between calls, SetCustomerValidFn registers a name again (gcustom, gshadow, le, to, unique, email, in, int, required-like names stay built in); every call is compared with the model run with the table of that moment. non-trivial: the call returned an error; distinct by request",
+		Size: map[string]int{"quick": 8000, "thorough": 150000}, Workers: 1,
+		Gen: func(r *rand.Rand, tier string) Case {
+			if chance(r, 0.02) {
+				regN++
+				name := pick(r, []string{"gcustom", "gshadow", "le", "to", "unique", "email", "in", "int", "ge", "phone"})
+				mk := "R" + strconv.Itoa(regN)
+				valid.SetCustomerValidFn(name, markerFn(mk))
+				globalFns[name] = mk
+			}
+			switch r.IntN(10) {
+			case 0:
+				return flatVarCase(r, profGfn.o)
+			case 1:
+				return flatMapCase(r, profGfn.o)
+			case 2:
+				return flatUrlCase(r, profGfn.o)
+			case 3, 4, 5:
+				// the named types again and again (their tags use le, to, unique, email, in)
+				g := &wgen{r: r, o: profGfn.o, maxDepth: 2, maxField: 4, maxRules: 3, pNested: 0.2}
+				v := reflect.New(pick(r, namedStructs[:3]))
+				g.fill(v.Elem(), 0)
+				return structCall{src: v.Interface()}.toCase([]string{"top:named-again"}, "")
 			}
 			return walkerCase(r, profGfn)
 		},
